@@ -623,11 +623,12 @@ pub fn check_c06_c09(bytes: &[u8], s: &NormalizerSettings, ms: &CharsetMatches) 
 pub fn check_c13_window(bytes: &[u8], s: &NormalizerSettings, real_lines: &[String], alt: (usize, usize)) -> Vec<Found> {
     let mut out = vec![];
     let n = bytes.len();
-    if n == 0 || s.steps == 0 || s.steps.checked_mul(s.chunk_size).map(|w| n > w).unwrap_or(true) {
+    // a product beyond usize::MAX covers every input
+    if n == 0 || s.steps == 0 || s.steps.checked_mul(s.chunk_size).map(|w| n > w).unwrap_or(false) {
         return out;
     }
     for (st, ch) in [(1usize, n), alt] {
-        if st.checked_mul(ch).map(|w| n > w).unwrap_or(true) || st == 0 {
+        if st.checked_mul(ch).map(|w| n > w).unwrap_or(false) || st == 0 {
             continue;
         }
         let mut t = s.clone();
